@@ -101,7 +101,13 @@ def run(tier, seed):
 
     # 2. generated streams
     members = {}
-    plan = [("lbo", 150 if quick else 500), ("json", 2000 if quick else 12000),
+    # crwin: the fixed neighbourhood of finding cr-window (terminators CR / CR LF / LF / mixed x document sizes x
+    # offsets around the thresholds of getContents x a terminator exactly at a chunk end x both transports, short
+    # reads).  The harness observes which counting of the dropped bytes the tree under test uses (probe, atom
+    # `lfcount` in the transport list) and the MODEL verdict is computed with that instance of Window.v, so the
+    # model stream is silent on both the repaired and the unrepaired tree; on an unrepaired tree the SPEC verdict
+    # fails for the CR members, which are then folded into the two canonical cr-window keys below.
+    plan = [("lbo", 150 if quick else 500), ("json", 2000 if quick else 12000), ("crwin", 0),
             ("query", 0), ("tokens", 0), ("modules", 0), ("yaml", 0)]
     for name, n in plan:
         cases, mism, smism, st = stream(c, exe_m, name, n, tier, seed)
@@ -169,7 +175,12 @@ RULE = ("lbo: getLineByOffset through the hook on generated multi-line strings (
         "incl. one-long-line documents) x corruption positions (every byte for small, line boundaries/ends/random for "
         "large) x 4 corruption kinds (control byte, '?', '}', truncation) x preceding valid documents of 0 - 66 KB total "
         "in 10/100/1000/5000-byte documents x transport (bytes.Reader = seekable, non-seekable reader with 7 read "
-        "policies, file argument; thorough: built binary with file / redirected file / real pipe) x LF/CRLF/CR; query: "
+        "policies, file argument; thorough: built binary with file / redirected file / real pipe) x LF/CRLF/CR; crwin: "
+        "fixed neighbourhood of the cr-window finding: 12/100/1000/5000-byte documents terminated by CR / CR LF / LF / a "
+        "mix (incl. CR CR LF, LF CR) x faulty document starting around 12288, 16384, 20480, 28672, 32768, 49152 x error on "
+        "its first/second line x a terminator exactly at the end of getContents' first and second chunk (CR LF split "
+        "there) x seekable / file / non-seekable with full and short reads; the model instance (counting of the dropped "
+        "bytes before or after the repair) is selected by a harness probe of the tree under test; query: "
         "17 kinds of bad token injected at token boundaries of 7 multi-line queries + truncation at every byte, via the "
         "argument and via -f, plus gojq.Parse Offset/Token identity; tokens: 85 token texts (every operator incl. //= ?// |= "
         "+= .., brackets, keywords, identifiers/variables with and without module prefix, $__loc__, formats, number shapes, "
